@@ -154,7 +154,8 @@ def _config_shard(args):
 # ---- (b) prescan ------------------------------------------------------------------------------------
 
 PLET = [b"<meta", b" ", b"charset", b"=", b"koi8-r", b">", b'"', b"'", b"http-equiv", b"content", b"content-type", b"text/html;",
-        b";", b"<!--", b"-->", b"<", b"/", b"x", b"</", b"<?", b"<!", b"A", b"utf-16", b"bogus", b"\n"]
+        b";", b"<!--", b"-->", b"<", b"/", b"x", b"</", b"<?", b"<!", b"A", b"utf-16", b"bogus", b"\n",
+        b"<meta charset=koi8-r>"]
 PSEEDS = [b"", b"<meta ", b"<meta charset=", b'<meta http-equiv=content-type content="', b"<meta content='charset=koi8-r' ", b"<meta charset=bogus ",
           b"<!--", b"<a "]
 
